@@ -139,7 +139,21 @@ func (d *cbDriver) random(rng *rand.Rand, nops int) {
 	for i := 0; i < nops; i++ {
 		w, h := d.cb.Size()
 		x, y := rng.Intn(w+3)-1, rng.Intn(h+3)-1
-		switch k := rng.Intn(20); {
+		switch k := rng.Intn(22); {
+		case k >= 20:
+			// the same rune and style with another combining list of the same length, on a cell just marked clean:
+			// nothing but the combining runes can make it dirty again
+			if w == 0 || h == 0 {
+				continue
+			}
+			x, y = rng.Intn(w), rng.Intn(h)
+			r := []rune{0x200b, 0x200e, 0x7, 0x9b, 0x301, 'a', 0x4e16, 0}[rng.Intn(8)]
+			st := tcx.RandStyle(rng, true, true)
+			pairs := [][2][]rune{{{0x301}, {0x308}}, {{0x300, 0x302}, {0x302, 0x300}}, {{0x20dd}, {0x301}}, {{0x301, 0x302, 0x303}, {0x301, 0x302, 0x304}}}
+			p := pairs[rng.Intn(len(pairs))]
+			d.setContent(x, y, r, p[0], st)
+			d.simple("SetDirty", x, y, false)
+			d.setContent(x, y, r, p[1], st)
 		case k < 9:
 			r := cbAlphabet[rng.Intn(len(cbAlphabet))]
 			if rng.Intn(6) == 0 {
